@@ -7,7 +7,9 @@ CONSTANTS
   OpEager <- MCOpEager
   Policy <- MCPolicy
   Analysis <- MCAnalysis
+  OpPatterns <- MCOpPatterns
+  OpN <- MCOpN
 INIT Init
 NEXT Next
-INVARIANTS Refines HandlesValid
+INVARIANTS Refines HandlesValid MatchRefines
 CHECK_DEADLOCK FALSE
